@@ -77,7 +77,7 @@ var c03ids = []string{"fragment-renders", "sql-means-query", "inline-numbers-are
 var c04ids = []string{"inline-ok-implies-param-ok", "param-count", "param-no-inline-values", "param-values-in-order", "param-substitution-equals-inline",
 	"param-means-inline", "same-outcome-for-same-kinds", "sql-text-independent-of-values", "param-count-independent-of-values", "value-param-confined", "value-param-equals-inline-constant"}
 
-const nSQLForms = 41
+const nSQLForms = 49
 
 func sqlRuns(thorough bool, concrete int) []hrun {
 	var r []hrun
@@ -171,20 +171,20 @@ var props = map[string]propCfg{
 	"C01": {
 		Quick:    withOnly(append(append(parseRuns(false), ctxRuns(false)...), chainRuns()...), c01ids, true),
 		Thorough: withOnly(append(append(parseRuns(true), ctxRuns(true)...), chainRuns()...), c01ids, true),
-		Bounds:   "all byte strings of length <= 3 (quick) / <= 4 (thorough); one token with every literal content of <= 3 bytes; token sequences of <= 2 (quick) / <= 3 (thorough) tokens over 20 token shapes with symbolic literal bytes; with and without a default field; consumers String, %#v, Render, RenderParam",
+		Bounds:   "all byte strings of length <= 3 (quick) / <= 4 (thorough); one token with every literal content of <= 3 bytes; token sequences of <= 2 (quick) / <= 3 (thorough) tokens over 21 token shapes (one of them a byte no token can start with) with symbolic literal bytes; three tokens over one representative per token kind; with and without a default field; consumers String, %#v, Render, RenderParam, and ToPostgres / ToParameterizedPostgres on the text itself (accepted and rejected inputs)",
 		Outside:  "longer inputs; asymptotic running time; symbolic decimal floats (cut); JSON encoding (see C12)",
 	},
 	"C02": {
 		Quick:    withOnly(append(sqlRuns(false, 0), identRuns(false)...), c02ids, false),
 		Thorough: withOnly(append(sqlRuns(true, 0), identRuns(true)...), c02ids, false),
-		Bounds:   "every leaf form of the renderable language (28 forms: equality, comparisons, inclusive/exclusive/open ranges over ints, strings and floats, lists, wildcards, regexps, quoted strings, NaN/Inf) with symbolic field names and values; boolean trees of depth <= 2 over them; field names carrying arbitrary bytes through escapes (<= 2/3 units) or quoted phrases (<= 2/3 bytes, all 256 values); inline and parameterized",
+		Bounds:   "every leaf form of the renderable language (49 forms: equality, comparisons, inclusive/exclusive/open ranges over ints, strings and floats, lists, wildcards incl. escaped characters, escaped wildcards, underscore/dot/dash and runs of wildcards, regexps incl. one ending in an escaped backslash, quoted strings incl. three-byte runes and U+FFFD, NaN/Inf as values and as range bounds, decimals with 9 significant digits, integers beyond 2^53) with symbolic field names and values; boolean trees of depth <= 2 over them; field names carrying arbitrary bytes through escapes (<= 2/3 units) or quoted phrases (<= 2/3 bytes, all 256 values); inline and parameterized",
 		Outside:  "identifiers longer than 63 bytes; values longer than the hole widths; PostgreSQL settings other than standard_conforming_strings=on; the SQL fragment is parsed by a model of PostgreSQL's grammar (validated against pg_query natively)",
 	},
 	"C03": {
 		Quick:    withOnly(sqlRuns(false, 1), c03ids, false),
 		Thorough: withOnly(sqlRuns(true, 1), c03ids, false),
 		Bounds:   "every leaf form of the filterable fragment with symbolic constants (1-2 digit integers, 2-byte strings, 2-3 byte patterns) and a symbolic row value of the matching type (integers -3..103, strings of 0-3 printable bytes); boolean trees (AND OR NOT + -) of depth <= 2 over integer and string leaves with one symbolic row value per field",
-		Outside:  "NULLs; collations other than bytewise; floats other than the listed constants; regexp meaning; SIMILAR TO patterns containing regex metacharacters; deeper trees",
+		Outside:  "NULLs; collations other than bytewise; floats other than the listed constants; regexp meaning; SIMILAR TO patterns containing regex metacharacters; ranges whose bounds have different types; field groups that contain a pattern; deeper trees",
 	},
 	"C04": {
 		Quick:    withOnly(append(append(sqlRuns(false, 1), indepRuns(false)...), valueRuns(false)...), c04ids, false),
@@ -219,13 +219,13 @@ var props = map[string]propCfg{
 	"C06": {
 		Quick:    deriveRuns(false),
 		Thorough: deriveRuns(true),
-		Bounds:   "all token sequences of <= 2 tokens (quick, both default-field settings; 3 tokens without default field) / <= 3 tokens (thorough) over 20 token shapes with symbolic literal bytes, and 1-2 free token slots inside 21 bracket/operator contexts; the derivation oracle knows every token and its typed value from the generator, not from the lexer under test",
+		Bounds:   "all token sequences of <= 2 tokens (quick, both default-field settings; 3 tokens without default field) / <= 3 tokens (thorough) over 20 token shapes with symbolic literal bytes, and 1-2 free token slots inside 32 bracket/operator contexts; the same sequences followed by an unterminated phrase or regexp; the derivation oracle knows every token and its typed value from the generator, not from the lexer under test",
 		Outside:  "longer sequences; literal contents outside the narrow shape classes (typed values of arbitrary words are covered by C08 and the K=1 wide slot of C01)",
 	},
 	"C07": {
-		Quick:    []hrun{{Harness: "TreeJuxtapose", Params: P("D", 2, "LEAVES", 0), InfoOnly: []string{"juxt-accepted"}}, {Harness: "TreeJuxtapose", Params: P("D", 1, "LEAVES", 1), InfoOnly: []string{"juxt-accepted"}}, {Harness: "TreeJuxtapose", Params: P("D", 3, "LEAVES", 3, "OPS", 1), InfoOnly: []string{"juxt-accepted"}}, {Harness: "TreeJuxtapose", Params: P("D", 2, "LEAVES", 0, "OPS", 3), InfoOnly: []string{"juxt-accepted"}}, {Harness: "TreeJuxtapose", Params: P("D", 2, "LEAVES", 9, "OPS", 2), InfoOnly: []string{"juxt-accepted"}}, {Harness: "TreeJuxtapose", Params: P("D", 2, "LEAVES", 10, "OPS", 2), InfoOnly: []string{"juxt-accepted"}}},
-		Thorough: []hrun{{Harness: "TreeJuxtapose", Params: P("D", 2, "LEAVES", 0), InfoOnly: []string{"juxt-accepted"}}, {Harness: "TreeJuxtapose", Params: P("D", 1, "LEAVES", 1), InfoOnly: []string{"juxt-accepted"}}, {Harness: "TreeJuxtapose", Params: P("D", 3, "LEAVES", 3, "OPS", 1), InfoOnly: []string{"juxt-accepted"}}, {Harness: "TreeJuxtapose", Params: P("D", 3, "LEAVES", 3, "OPS", 2), InfoOnly: []string{"juxt-accepted"}}, {Harness: "TreeJuxtapose", Params: P("D", 2, "LEAVES", 2), InfoOnly: []string{"juxt-accepted"}}, {Harness: "TreeJuxtapose", Params: P("D", 2, "LEAVES", 9, "OPS", 2), InfoOnly: []string{"juxt-accepted"}}, {Harness: "TreeJuxtapose", Params: P("D", 2, "LEAVES", 10, "OPS", 2), InfoOnly: []string{"juxt-accepted"}}},
-		Bounds:   "all trees as in C05 that contain an AND node, each AND node in turn written as juxtaposition; both texts parsed by the real parser",
+		Quick:    []hrun{{Harness: "TreeJuxtapose", Params: P("D", 2, "LEAVES", 0), InfoOnly: []string{"juxt-accepted"}}, {Harness: "TreeJuxtapose", Params: P("D", 1, "LEAVES", 1), InfoOnly: []string{"juxt-accepted"}}, {Harness: "TreeJuxtapose", Params: P("D", 3, "LEAVES", 3, "OPS", 1), InfoOnly: []string{"juxt-accepted"}}, {Harness: "TreeJuxtapose", Params: P("D", 2, "LEAVES", 0, "OPS", 3), InfoOnly: []string{"juxt-accepted"}}, {Harness: "TreeJuxtapose", Params: P("D", 2, "LEAVES", 9, "OPS", 2), InfoOnly: []string{"juxt-accepted"}}, {Harness: "TreeJuxtapose", Params: P("D", 2, "LEAVES", 10, "OPS", 2), InfoOnly: []string{"juxt-accepted"}}, {Harness: "TreeJuxtapose", Params: P("D", 2, "LEAVES", 11, "OPS", 1, "ONEDIGIT", 1), InfoOnly: []string{"juxt-accepted"}}},
+		Thorough: []hrun{{Harness: "TreeJuxtapose", Params: P("D", 2, "LEAVES", 0), InfoOnly: []string{"juxt-accepted"}}, {Harness: "TreeJuxtapose", Params: P("D", 1, "LEAVES", 1), InfoOnly: []string{"juxt-accepted"}}, {Harness: "TreeJuxtapose", Params: P("D", 3, "LEAVES", 3, "OPS", 1), InfoOnly: []string{"juxt-accepted"}}, {Harness: "TreeJuxtapose", Params: P("D", 3, "LEAVES", 3, "OPS", 2), InfoOnly: []string{"juxt-accepted"}}, {Harness: "TreeJuxtapose", Params: P("D", 2, "LEAVES", 2), InfoOnly: []string{"juxt-accepted"}}, {Harness: "TreeJuxtapose", Params: P("D", 2, "LEAVES", 9, "OPS", 2), InfoOnly: []string{"juxt-accepted"}}, {Harness: "TreeJuxtapose", Params: P("D", 2, "LEAVES", 10, "OPS", 2), InfoOnly: []string{"juxt-accepted"}}, {Harness: "TreeJuxtapose", Params: P("D", 2, "LEAVES", 11, "OPS", 1, "ONEDIGIT", 1), InfoOnly: []string{"juxt-accepted"}}},
+		Bounds:   "all trees as in C05 that contain an AND node, each AND node in turn written as juxtaposition; both texts parsed by the real parser; extra alphabets: comparisons, bare numbers, exclusive ranges, field groups",
 		Outside:  "several gaps at once; deeper trees; a juxtaposition the parser rejects is informational (eligibility is defined by the parser accepting the text)",
 	},
 	"C09": {
@@ -235,6 +235,7 @@ var props = map[string]propCfg{
 			{Harness: "TreeLayout", Params: P("D", 1, "LEAVES", 1, "VARIANT", 3)}, {Harness: "TreeLayout", Params: P("D", 1, "LEAVES", 1, "VARIANT", 4)},
 			{Harness: "TreeLayout", Params: P("D", 1, "LEAVES", 1, "VARIANT", 2, "DF", 1)},
 			{Harness: "TreeLayout", Params: P("D", 1, "LEAVES", 2, "VARIANT", 5)}, {Harness: "TreeLayout", Params: P("D", 1, "LEAVES", 1, "VARIANT", 6)},
+			{Harness: "TreeLayout", Params: P("D", 1, "LEAVES", 0, "OPS", 3, "VARIANT", 2, "DF", 1)},
 			{Harness: "LayoutTokens", Params: P("K", 2, "DF", 0)}, {Harness: "LayoutTokens", Params: P("K", 3, "DF", 0, "SHAPES", 1)},
 		},
 		Thorough: []hrun{
@@ -243,6 +244,7 @@ var props = map[string]propCfg{
 			{Harness: "LayoutTokens", Params: P("K", 2, "DF", 0)}, {Harness: "LayoutTokens", Params: P("K", 2, "DF", 1)}, {Harness: "LayoutTokens", Params: P("K", 3, "DF", 0)}, {Harness: "LayoutTokens", Params: P("K", 4, "DF", 0, "SHAPES", 1)},
 			{Harness: "TreeLayout", Params: P("D", 1, "LEAVES", 1, "VARIANT", 0)}, {Harness: "TreeLayout", Params: P("D", 1, "LEAVES", 1, "VARIANT", 1)}, {Harness: "TreeLayout", Params: P("D", 1, "LEAVES", 1, "VARIANT", 2)},
 			{Harness: "TreeLayout", Params: P("D", 2, "LEAVES", 0, "VARIANT", 0)}, {Harness: "TreeLayout", Params: P("D", 2, "LEAVES", 0, "VARIANT", 1)}, {Harness: "TreeLayout", Params: P("D", 2, "LEAVES", 0, "VARIANT", 2)},
+			{Harness: "TreeLayout", Params: P("D", 2, "LEAVES", 0, "OPS", 3, "VARIANT", 2, "DF", 1)},
 			{Harness: "TreeLayout", Params: P("D", 1, "LEAVES", 1, "VARIANT", 5)}, {Harness: "TreeLayout", Params: P("D", 2, "LEAVES", 0, "VARIANT", 5)}, {Harness: "TreeLayout", Params: P("D", 1, "LEAVES", 1, "VARIANT", 6)}, {Harness: "TreeLayout", Params: P("D", 2, "LEAVES", 0, "VARIANT", 6)},
 		},
 		Bounds:  "trees as in C05; variants: every gap widened to space+tab plus leading/trailing white space, every gap written as a lone tab, LF, CR or CR LF (also leading and trailing), lower/mixed-case keywords, one redundant pair of parentheses around any one node, around every field value, around the number after ~ and ^",
@@ -267,7 +269,7 @@ var props = map[string]propCfg{
 			{Harness: "TreeDefaultField", Params: P("D", 1, "LEAVES", 1, "DFKIND", 0)}, {Harness: "TreeDefaultField", Params: P("D", 1, "LEAVES", 1, "DFKIND", 1)},
 			{Harness: "TreeDefaultField", Params: P("D", 2, "LEAVES", 0, "DFKIND", 0)}, {Harness: "TreeDefaultField", Params: P("D", 2, "LEAVES", 2, "DFKIND", 0)},
 		},
-		Bounds:  "trees as in C05; default field names of 2-3 symbolic bytes (identifier-like, and one needing quoting) disjoint from the query's fields",
+		Bounds:  "trees as in C05; default field names of 2-3 symbolic bytes (identifier-like, one needing quoting, leading/trailing white space) disjoint from the query's fields; field groups x:(E) with E of depth <= 3 over OR/AND/NOT and bare strings (depth <= 2 also numbers and patterns), alone and beside other operands",
 		Outside: "deeper trees",
 	},
 	"C08": {
@@ -285,13 +287,13 @@ var props = map[string]propCfg{
 	"C10": {
 		Quick:    withOnly(append(parseRuns(false), ctxRuns(false)...), c10ids, false),
 		Thorough: withOnly(append(parseRuns(true), ctxRuns(true)...), c10ids, false),
-		Bounds:   "as C01: all byte strings <= 3/4, token sequences <= 2/3, and 1-2 free token slots inside 19 bracket/operator contexts (range bounds, groups, field values, prefix/suffix operators), with and without default field",
+		Bounds:   "as C01: all byte strings <= 3/4, token sequences <= 2/3, and 1-2 free token slots inside 32 bracket/operator contexts (range bounds, groups, field values, nested field positions, groups after a comparison, prefix/suffix operators), with and without default field; ToPostgres / ToParameterizedPostgres called on the text of accepted and rejected inputs",
 		Outside:  "longer inputs; garbage needing more than 2 free tokens in one place",
 	},
 	"C12": {
 		Quick:    []hrun{{Harness: "JSONRoundTrip", Params: P("D", 1, "LEAVES", 4)}},
 		Thorough: []hrun{{Harness: "JSONRoundTrip", Params: P("D", 1, "LEAVES", 4)}, {Harness: "JSONRoundTrip", Params: P("D", 2, "LEAVES", 0)}},
-		Bounds:   "every tree of depth <= 1 over 23 leaf forms (all operators incl. default and explicit boost powers / fuzzy distances, inclusive/exclusive/open ranges, lists of strings and ints, empty quoted string, two-byte UTF-8 text, quotes/commas in values) with symbolic leaf bytes (quick); depth <= 2 over 3 leaf forms (thorough); through Parse, Marshal, Unmarshal, Validate, re-Marshal, String, Render, RenderParam",
+		Bounds:   "every tree of depth <= 1 over 30 leaf forms (all operators incl. default and explicit boost powers / fuzzy distances, inclusive/exclusive/open ranges, lists of strings and ints, empty quoted string, two- and three-byte UTF-8 text, quotes/commas in values, quoted patterns and quoted /regexps/ and whole floats (deep equality waived for exactly those), integers beyond int64, a regexp ending in an escaped backslash) with symbolic leaf bytes (quick); depth <= 2 over 3 leaf forms (thorough); through Parse, Marshal, Unmarshal, Validate, re-Marshal, String, Render, RenderParam",
 		Outside:  "encoding/json itself is replaced by a pure-Go stand-in for the types involved (compared with the real package on every natively replayed path); strings whose JSON encoding needs escapes other than those in the hole classes; deeper trees",
 	},
 	"C13": {
@@ -317,8 +319,8 @@ var props = map[string]propCfg{
 			{Harness: "Purity", Params: P("SRC", 0, "D", 2, "LEAVES", 0, "DF", 0)}, {Harness: "Purity", Params: P("SRC", 0, "D", 2, "LEAVES", 0, "DF", 1)},
 			{Harness: "Purity", Params: P("SRC", 1, "K", 2, "DF", 0)}, {Harness: "Purity", Params: P("SRC", 1, "K", 3, "DF", 0)},
 		},
-		Bounds:  "every path of: trees of depth <= 1 over 19 leaf forms and depth <= 2 over 3 leaf forms, token sequences of <= 2 (quick) / 3 (thorough) tokens; per path: Parse twice, String, %#v, Validate, Render twice, RenderParam twice, ToPostgres twice; monitors: package-level variables of the module unchanged at path end, shared expression unchanged after each consumer, no map iteration / goroutine / channel / pointer formatting executed after the epoch",
-		Outside: "schedules are not explored: absence of writes to shared state and of nondeterminism sources on every explored path is the argument for race freedom and schedule independence (Go memory model); JSON encoding is covered by C12; inputs beyond the bounds",
+		Bounds:  "every path of: trees of depth <= 1 over 19 leaf forms and depth <= 2 over 3 leaf forms, token sequences of <= 2 (quick) / 3 (thorough) tokens; per path: Parse twice (and a call without options before and after calls with a default field), String, %#v, Validate twice, Render twice, RenderParam three times, json.Marshal twice, ToPostgres twice, error texts compared, a private driver customised; monitors: package-level variables of the module unchanged at path end, shared expression unchanged after each consumer, no map iteration / goroutine / channel / pointer formatting executed after the epoch",
+		Outside: "schedules are not explored: absence of writes to shared state and of nondeterminism sources on every explored path is the argument for race freedom and schedule independence (Go memory model); inputs beyond the bounds",
 	},
 	"C15": {
 		Quick: []hrun{
@@ -326,7 +328,8 @@ var props = map[string]propCfg{
 			{Harness: "DriverFold", Params: P("D", 1, "LEAVES", 1, "MODE", 0, "RETLEN", 0)},
 			{Harness: "DriverFold", Params: P("D", 1, "LEAVES", 1, "MODE", 1, "RETLEN", 1)},
 			{Harness: "DriverFold", Params: P("D", 1, "LEAVES", 2, "MODE", 2, "RETLEN", 1)},
-			{Harness: "UnsupportedOps", Params: P("D", 2, "LEAVES", 0)},
+			{Harness: "DriverFold", Params: P("D", 1, "LEAVES", 2, "MODE", 0, "RETLEN", 1, "ONEITEM", 1)}, {Harness: "DriverFold", Params: P("D", 1, "LEAVES", 2, "MODE", 2, "RETLEN", 1, "ONEITEM", 1)},
+			{Harness: "UnsupportedOps", Params: P("D", 2, "LEAVES", 0)}, {Harness: "UnsupportedOps", Params: P("D", 1, "LEAVES", 0, "PRIV", 1)},
 		},
 		Thorough: []hrun{
 			{Harness: "DriverFold", Params: P("D", 1, "LEAVES", 1, "MODE", 0, "RETLEN", 1)},
@@ -336,16 +339,17 @@ var props = map[string]propCfg{
 			{Harness: "DriverFold", Params: P("D", 1, "LEAVES", 1, "MODE", 2, "RETLEN", 1)},
 			{Harness: "DriverFold", Params: P("D", 2, "LEAVES", 0, "MODE", 0, "RETLEN", 1)},
 			{Harness: "DriverFold", Params: P("D", 2, "LEAVES", 0, "MODE", 1, "RETLEN", 1)},
+			{Harness: "DriverFold", Params: P("D", 1, "LEAVES", 2, "MODE", 0, "RETLEN", 1, "ONEITEM", 1)}, {Harness: "DriverFold", Params: P("D", 1, "LEAVES", 2, "MODE", 2, "RETLEN", 1, "ONEITEM", 1)},
 			{Harness: "UnsupportedOps", Params: P("D", 2, "LEAVES", 0)},
-			{Harness: "UnsupportedOps", Params: P("D", 1, "LEAVES", 1)},
+			{Harness: "UnsupportedOps", Params: P("D", 1, "LEAVES", 1)}, {Harness: "UnsupportedOps", Params: P("D", 1, "LEAVES", 1, "PRIV", 1)},
 		},
-		Bounds:  "expression trees as the real parser produces them for every tree of depth <= 1 over 19 leaf forms (quick) and depth <= 2 over 3 leaf forms (thorough), all 19 operators registered with tracing functions that return fresh symbolic strings of length 0-2; one call returning an error at every position; every single operator removed from the map",
-		Outside: "maps with more than one entry removed; render functions with side effects on the tree; trees not reachable from Parse",
+		Bounds:  "expression trees as the real parser produces them for every tree of depth <= 1 over 19 leaf forms (quick) and depth <= 2 over 3 leaf forms (thorough), all 19 operators registered with tracing functions that return fresh symbolic strings of length 0-2; one call returning an error at every position; every single operator removed from the map; value lists cut to one item; functions registered on a driver of one's own",
+		Outside: "maps with more than one entry removed; render functions with side effects on the tree; trees not reachable from Parse other than value lists cut to one item",
 	},
 	"C16": {
 		Quick:    withOnly([]hrun{{Harness: "LexSegment", Params: P("N", 0)}, {Harness: "LexSegment", Params: P("N", 1)}, {Harness: "LexSegment", Params: P("N", 2)}, {Harness: "LexSegment", Params: P("N", 3)}, {Harness: "LexTokens", Params: P("K", 1)}, {Harness: "LexTokens", Params: P("K", 2)}}, nil, true),
 		Thorough: withOnly([]hrun{{Harness: "LexSegment", Params: P("N", 0)}, {Harness: "LexSegment", Params: P("N", 1)}, {Harness: "LexSegment", Params: P("N", 2)}, {Harness: "LexSegment", Params: P("N", 3)}, {Harness: "LexSegment", Params: P("N", 4)}, {Harness: "LexTokens", Params: P("K", 1)}, {Harness: "LexTokens", Params: P("K", 2)}, {Harness: "LexTokens", Params: P("K", 3), Seconds: 900}, {Harness: "LexSegment", Params: P("N", 5), Seconds: 1200}}, nil, true),
-		Bounds:   "all byte strings (all 256 values per byte) of length <= 3 (quick) / <= 4, 5 under a time cap (thorough); sequences of <= 2 (quick) / 3 (thorough, time cap) token shapes out of 31 (the 20 token shapes plus dotted/dashed words, trailing backslash, escapes before multi-byte runes, escaped delimiters, unterminated phrases and regexps, bad characters) with symbolic literal bytes and three kinds of gaps; every Peek/Next step; Parse fails whenever the stream has an error token",
+		Bounds:   "all byte strings (all 256 values per byte) of length <= 3 (quick) / <= 4, 5 under a time cap (thorough); sequences of <= 2 (quick) / 3 (thorough, time cap) token shapes out of 31 (the 20 token shapes plus dotted/dashed words, trailing backslash, escapes before multi-byte runes, escaped delimiters, unterminated phrases and regexps, bad characters) with symbolic literal bytes and three kinds of gaps; an independent reading of the token rules says which ASCII inputs contain a lexical error (those must make Parse fail); every Peek/Next step; Parse fails whenever the stream has an error token",
 		Outside:  "inputs longer than the bound",
 	},
 }
